@@ -48,7 +48,9 @@ MANIFEST = {
             "impl vs Lean model vs Lean spec vs oracle.",
     "note": "gzip/BGZF decompression, NumPy indexing and npstructures ragged slicing are modelled as list operations and exercised "
             "by the correspondence; int32 wrap-around outside the validity bounds (pos + reference length >= 2^31, l_seq >= 2^31) "
-            "is outside the modelled domain.",
+            "is outside the modelled domain. Measured (16 cores, seeds 0-3): quick 8-18 s / ~3.1k cases, thorough 87-160 s / ~55k cases "
+            "(every chunk size from the largest record to file size + 2 for the small files). Defects found and fixed in /repo: "
+            "ebaee36 (unmapped -> last reference name; zero-reference BAM unreadable), d080e2f (uint16 wrap of n_cigar_op*4).",
     "technique": "Lean 4 proof (induction over the record list) over an executable decoder model + spec-level encoder; tables regenerated "
                  "from source (decide); differential correspondence with the implementation on independently encoded files",
     "design": "§6 C16",
